@@ -4,6 +4,7 @@ CONSTANTS
   ViolKinds = {"v_bogus"}
   MaxItems = 3
   MinItems = 0
+  MaxCmt = 0
   Devs = {}
   Emit = FALSE
 INVARIANTS Inv_Refines
